@@ -51,9 +51,22 @@ func runMeshScenario(c *Ctx, fl meshFlavor, nops int) {
 	}
 	// the two queue lengths are different options: a peer's send queue has the WRITEQ-LEN in force when it attached
 	smallReadQ := false
+	// Which receivers may have input they have not passed on yet.  `inside` is an upper bound of the messages inside
+	// the socket (queued, held by a receiver, unread); while it does not exceed the queue length no receiver can be
+	// blocked, so nothing is pending.  When the receive queue is replaced, every receiver with pending input runs at
+	// once; with more than one of them the order of what they forward is a scheduling race the sequential machine
+	// does not decide, so that operation is only issued while at most one pipe can have pending input.
+	readCap, inside := 128, 0
+	mayPend := map[int]bool{}
+	settlePend := func() {
+		if inside <= readCap {
+			mayPend = map[int]bool{}
+		}
+	}
 	if c.R.Intn(2) == 0 {
 		r, w := c.R.Pick(0, 1, 2), c.R.Pick(1, 3, 128)
 		smallReadQ = true
+		readCap = r
 		e.SetOpt(0, mangos.OptionReadQLen, fmt.Sprint(r), r)
 		e.SetOpt(0, mangos.OptionWriteQLen, fmt.Sprint(w), w)
 	}
@@ -131,6 +144,9 @@ func runMeshScenario(c *Ctx, fl meshFlavor, nops int) {
 			}
 			targets := append([]int{}, pipes...)
 			e.Inject(p, body)
+			inside++
+			mayPend[p] = true
+			settlePend()
 			fw := map[int]int{}
 			for _, ev := range splitEvents(lastObs(e)) {
 				if ev.kind != "tx" || (smallReadQ && fl.isStar) {
@@ -188,15 +204,25 @@ func runMeshScenario(c *Ctx, fl meshFlavor, nops int) {
 				rmFromList(p)
 			}
 		default:
-			if strings.Contains(fl.name, "star") && c.R.Intn(2) == 0 {
-				// STAR: the receive queue may be replaced at any moment, also while receivers are holding messages for it
+			if strings.Contains(fl.name, "star") && c.R.Intn(2) == 0 && len(mayPend) <= 1 {
+				// STAR: the receive queue may be replaced at any moment, also while a receiver is holding a message for it
 				n := c.R.Pick(0, 1, 2, 128)
 				smallReadQ = true
+				readCap = n
 				e.SetOpt(0, mangos.OptionReadQLen, fmt.Sprint(n), n)
+				settlePend()
 			} else {
 				n := c.R.Pick(0, 1, 2)
 				e.SetOpt(0, mangos.OptionWriteQLen, fmt.Sprint(n), n)
 			}
+		}
+		if len(e.ops) > n0 {
+			for _, ev := range splitEvents(lastObs(e)) {
+				if ev.kind == "ret" && ev.err == "" && inside > 0 {
+					inside-- // a Recv returned a message
+				}
+			}
+			settlePend()
 		}
 	}
 	e.Finish()
